@@ -17,7 +17,7 @@ def sh(cmd, cwd=None, timeout=1800):
 
 ap = argparse.ArgumentParser()
 ap.add_argument("--root", default="/verif/benign"); ap.add_argument('--ids'); ap.add_argument('--jobs', type=int, default=8)
-ap.add_argument('--checks'); ap.add_argument('--keep'); ap.add_argument('--only')
+ap.add_argument('--checks'); ap.add_argument('--keep'); ap.add_argument('--only'); ap.add_argument('--own', action='store_true'); ap.add_argument('--skip')
 a = ap.parse_args()
 man = json.load(open('/verif/MANIFEST.json'))
 checks = a.checks.split(',') if a.checks else [c['property_id'] for c in man['checks']]
@@ -43,7 +43,7 @@ try:
             continue
         if True:
             patch = os.path.join(od, sub, 'patch.diff')
-            if not os.path.exists(patch) or not os.path.exists(os.path.join(od, sub, 'meta.json')) or (a.only and '%s-%s' % (pid, n) not in a.only.split(',')):
+            if not os.path.exists(patch) or not os.path.exists(os.path.join(od, sub, 'meta.json')) or (a.only and '%s-%s' % (pid, n) not in a.only.split(',')) or (a.skip and '%s-%s' % (pid, n) in a.skip.split(',')):
                 continue
             rc, out = sh('git apply %s' % patch, cwd=wt)
             if rc != 0:
@@ -57,7 +57,7 @@ try:
                 return cid, rc, bad
             det = {}
             with ThreadPoolExecutor(a.jobs) as ex:
-                for cid, rc, bad in ex.map(one, checks):
+                for cid, rc, bad in ex.map(one, ([pid] if a.own else checks)):
                     if rc != 0:
                         det[cid] = bad or ['exit %d' % rc]
             sh('git checkout -q -- . && git clean -fdq', cwd=wt)
